@@ -4,5 +4,5 @@ CONSTANTS
   MaxCalls = 4
   MaxLines = 2
 SPECIFICATION Spec
-INVARIANTS MutexOk NoCallbackAfterStop NoCallbackRunningAfterStop NoDeadlockWhileCalling
+INVARIANTS RefinesMonitor MutexOk NoCallbackAfterStop NoCallbackRunningAfterStop NoDeadlockWhileCalling
 CHECK_DEADLOCK FALSE
